@@ -67,6 +67,9 @@ struct run_state
     }
     wcount wc[16];
     std::atomic<unsigned long long> oob{0};
+    // "together": all calls of f return at (nearly) the same instant, so the chunk tasks finish together
+    bool together = false;
+    std::atomic<unsigned long long> arrived{0};
     std::atomic<int> vbad{0};
     result res;
 };
@@ -135,6 +138,11 @@ static void run_bulk(run_state& rs, ex::thread_pool_scheduler sched, bool from_o
             auto& r = rs.wc[pika::get_worker_thread_num() % 16].r;
             r.store(r.load(std::memory_order_relaxed) + 1, std::memory_order_relaxed);
         }
+        if (rs.together)
+        {
+            rs.arrived.fetch_add(1, std::memory_order_relaxed);
+            for (int spin = 0; spin < 40000 && rs.arrived.load(std::memory_order_relaxed) < rs.n; ++spin) {}
+        }
         if (thr) throw idx_error((long long) i);
     };
     auto s = ex::just(4711, std::string("payload")) | ex::continues_on(sched) | ex::bulk((Shape) rs.n, f);
@@ -152,6 +160,105 @@ static void run_bulk(run_state& rs, ex::thread_pool_scheduler sched, bool from_o
     // give stragglers a moment so that a second signal / late call would be seen
     l.unlock();
     std::this_thread::sleep_for(std::chrono::microseconds(300));
+}
+
+// ---- burst: many tiny bulk operations back to back, one index per worker, all calls returning together; the
+// operation states stay alive until the end of the burst so that a late second completion is counted
+struct burst_op_state
+{
+    std::atomic<int> nsig{0};
+    std::atomic<int> calls[8];
+    std::atomic<int> arrived{0};
+    std::atomic<int> returned{0};
+    std::atomic<int> early{0};
+    int n = 0;
+};
+struct burst_recv
+{
+    PIKA_STDEXEC_RECEIVER_CONCEPT
+    burst_op_state* st;
+    void set_value() && noexcept
+    {
+        if (st->returned.load() != st->n) st->early = 1;
+        ++st->nsig;
+    }
+    void set_error(std::exception_ptr) && noexcept
+    {
+        st->early = 1;
+        ++st->nsig;
+    }
+    void set_stopped() && noexcept
+    {
+        st->early = 1;
+        ++st->nsig;
+    }
+    constexpr ex::empty_env get_env() const& noexcept { return {}; }
+};
+static void run_burst(ex::thread_pool_scheduler sched, int W, int nops)
+{
+    auto mk = [&](burst_op_state* st) {
+        return ex::connect(ex::schedule(sched) | ex::bulk(st->n,
+                               [st](int i) {
+                                   st->calls[i & 7].fetch_add(1, std::memory_order_relaxed);
+                                   st->arrived.fetch_add(1, std::memory_order_relaxed);
+                                   for (int spin = 0; spin < 20000 && st->arrived.load(std::memory_order_relaxed) < st->n; ++spin) {}
+                                   st->returned.fetch_add(1, std::memory_order_relaxed);
+                               }),
+            burst_recv{st});
+    };
+    using op_t = decltype(mk(nullptr));
+    // operation states are not movable: constructed in place from the prvalue (guaranteed elision)
+    struct holder
+    {
+        op_t op;
+        holder(decltype(mk)& f, burst_op_state* st)
+          : op(f(st))
+        {
+        }
+    };
+    std::vector<std::unique_ptr<burst_op_state>> sts;
+    std::vector<std::unique_ptr<holder>> ops;
+    for (int k = 0; k < nops; ++k)
+    {
+        auto st = std::make_unique<burst_op_state>();
+        st->n = W;
+        for (auto& c : st->calls) c = 0;
+        ops.push_back(std::make_unique<holder>(mk, st.get()));
+        sts.push_back(std::move(st));
+    }
+    long hung = 0;
+    for (int k = 0; k < nops; ++k)
+    {
+        ex::start(ops[k]->op);
+        auto t0 = std::chrono::steady_clock::now();
+        while (sts[k]->nsig.load() == 0)
+        {
+            if (std::chrono::steady_clock::now() - t0 > std::chrono::seconds(12))
+            {
+                hung = 1;
+                break;
+            }
+        }
+        if (hung) break;
+    }
+    std::this_thread::sleep_for(std::chrono::milliseconds(1));
+    long sig_bad = 0, idx_bad = 0, early = 0;
+    for (auto& st : sts)
+    {
+        if (hung && st->nsig.load() == 0) continue;
+        if (st->nsig.load() != 1) ++sig_bad;
+        for (int i = 0; i < 8; ++i)
+            if (st->calls[i].load() != (i < st->n ? 1 : 0)) ++idx_bad;
+        early += st->early.load();
+    }
+    ev("burst").i("ops", nops).i("n", W).i("sig_bad", sig_bad).i("idx_bad", idx_bad).i("early", early).i("hung", hung).done();
+    if (hung)
+    {
+        ev("quiescent").done();
+        vlog::flush();
+        vlog::hang_pause();
+        _exit(0);
+    }
 }
 
 int main(int argc, char** argv)
@@ -187,6 +294,12 @@ int main(int argc, char** argv)
 
     for (int b = 0; b < nb; ++b)
     {
+        if (!huge && R.chance(1, 12))
+        {
+            bool p2 = R.chance(3, 4);
+            run_burst(p2 ? sched_p2 : sched_default, p2 ? 4 : 2, 150);
+            continue;
+        }
         bool on_p2 = R.chance(1, 2);
         int W = on_p2 ? 4 : 2;
         unsigned long long n;
@@ -202,6 +315,8 @@ int main(int argc, char** argv)
         case 6: n = 16ull * W + 3; break;
         case 7: n = 1 + R.below(64); break;
         case 8: n = 1000 + R.below(100000); break;
+        case 9:
+        case 10: n = (unsigned long long) W; break;    // one index per worker
         default: n = R.below(48); break;
         }
         int stype = (int) R.below(5);
@@ -218,6 +333,7 @@ int main(int argc, char** argv)
         run_state& rs = *rsp;
         rs.n = n;
         rs.small = n <= 64;
+        rs.together = n >= 2 && n <= (unsigned long long) W && R.chance(3, 4);
         if (n <= (1ull << 26)) rs.counts = std::vector<std::atomic<unsigned char>>(n);
         int tk = huge ? 0 : (int) R.below(6);
         if (n > 0)
